@@ -168,7 +168,11 @@ func (c CmdSpec) CLIArgs(file string) []string {
 			a = append(a, "--extend")
 		}
 	}
-	return append(a, "--no-warn", "--no-style", file)
+	// warnings are computed (and can fail) after the file is written: half of the commands run with them
+	if (len(c.Kind)+len(c.Summary)+len(c.Time)+len(c.DateSel))%2 == 0 {
+		a = append(a, "--no-warn")
+	}
+	return append(a, "--no-style", file)
 }
 
 func dash(s string) string {
